@@ -233,6 +233,52 @@ pub proof fn lemma_chain_is_esc(s: Seq<char>)
 }
 
 // ------------------------------------------------------------------------------------------------
+// (A') the XML text of one event: 23 <Param Name=".." Value=".." T=".." /> elements inside a CDATA section.
+//      String-valued parameters carry the entity encoding of the event's text, numeric ones a decimal number.
+// ------------------------------------------------------------------------------------------------
+/// decimal text of a number (what `format!("{}", n)` gives for a u64): only digits, at least one
+pub uninterp spec fn dec_u64(n: u64) -> Seq<char>;
+#[verifier::external_body]
+pub broadcast proof fn axiom_dec_u64_digits(n: u64)
+    ensures (#[trigger] dec_u64(n)).len() >= 1, forall|i: int| 0 <= i < dec_u64(n).len() ==> '0' <= #[trigger] dec_u64(n)[i] <= '9'
+{}
+pub open spec fn WSTR_END() -> Seq<char> { "\" T=\"mt:wstr\" />"@ }
+pub open spec fn U64_END() -> Seq<char> { "\" T=\"mt:uint64\" />"@ }
+/// a text parameter: `pre` is `<Param Name="N" Value="`, the value is the ENCODED text
+pub open spec fn wstr(pre: Seq<char>, text: Seq<char>) -> Seq<char> { pre + esc(text) + WSTR_END() }
+pub open spec fn u64p(pre: Seq<char>, n: u64) -> Seq<char> { pre + dec_u64(n) + U64_END() }
+pub open spec fn EVENT_OPEN() -> Seq<char> { "<Event id=\"7\"><![CDATA["@ }
+pub open spec fn EVENT_CLOSE() -> Seq<char> { "]]></Event>"@ }
+#[verifier::opaque]
+pub open spec fn event_xml(e: TelemetryEvent) -> Seq<char> {
+    Seq::<char>::empty() + EVENT_OPEN()
+    + wstr("<Param Name=\"OpcodeName\" Value=\""@, e.opcode_name@)
+    + wstr("<Param Name=\"KeywordName\" Value=\""@, e.keyword_name@)
+    + wstr("<Param Name=\"TaskName\" Value=\""@, e.task_name@)
+    + wstr("<Param Name=\"TenantName\" Value=\""@, e.tenant_name@)
+    + wstr("<Param Name=\"RoleName\" Value=\""@, e.role_name@)
+    + wstr("<Param Name=\"RoleInstanceName\" Value=\""@, e.role_instance_name@)
+    + wstr("<Param Name=\"ContainerId\" Value=\""@, e.container_id@)
+    + wstr("<Param Name=\"ResourceGroupName\" Value=\""@, e.resource_group_name@)
+    + wstr("<Param Name=\"SubscriptionId\" Value=\""@, e.subscription_id@)
+    + wstr("<Param Name=\"VMId\" Value=\""@, e.vm_id@)
+    + u64p("<Param Name=\"EventPid\" Value=\""@, e.event_pid)
+    + u64p("<Param Name=\"EventTid\" Value=\""@, e.event_tid)
+    + u64p("<Param Name=\"ImageOrigin\" Value=\""@, e.image_origin)
+    + wstr("<Param Name=\"ExecutionMode\" Value=\""@, e.execution_mode@)
+    + wstr("<Param Name=\"OSVersion\" Value=\""@, e.os_version@)
+    + wstr("<Param Name=\"GAVersion\" Value=\""@, e.ga_version@)
+    + u64p("<Param Name=\"RAM\" Value=\""@, e.ram)
+    + u64p("<Param Name=\"Processors\" Value=\""@, e.processors)
+    + wstr("<Param Name=\"EventName\" Value=\""@, e.event_name@)
+    + wstr("<Param Name=\"CapabilityUsed\" Value=\""@, e.capability_used@)
+    + wstr("<Param Name=\"Context1\" Value=\""@, e.context1@)
+    + wstr("<Param Name=\"Context2\" Value=\""@, e.context2@)
+    + wstr("<Param Name=\"Context3\" Value=\""@, e.context3@)
+    + EVENT_CLOSE()
+}
+
+// ------------------------------------------------------------------------------------------------
 // (B) the document handed to the host for a batch (view of TelemetryData = Seq<TelemetryEvent>)
 // ------------------------------------------------------------------------------------------------
 pub open spec fn events_xml(b: Seq<TelemetryEvent>) -> Seq<char>
@@ -406,5 +452,3 @@ pub proof fn lemma_new_batches(o: Trace, f: Trace, input: Seq<TelemetryEvent>)
     assert forall|i: int| 0 <= i < nb.len() implies batch_ok(#[trigger] nb[i]) by { assert(nb[i] == f.batches[o.batches.len() + i]); }
 }
 
-// STAGE1 placeholder
-pub uninterp spec fn event_xml(e: TelemetryEvent) -> Seq<char>;
